@@ -13,8 +13,10 @@
 package sched
 
 import (
+	"os"
 	"sync"
 	"syscall"
+	"time"
 	"unsafe"
 
 	"seehuhn.de/go/sfnt/zzverif/simhook"
@@ -39,6 +41,8 @@ var (
 	midOp    [maxTasks]bool
 	overlap  [MaxOps][MaxOps]int // op pairs that overlapped mid-operation
 	buf      [1]byte
+
+	blockedYields int
 )
 
 const (
@@ -158,6 +162,26 @@ func YieldPoint(site string) {
 	simhook.Next = simhook.Steps + nextGap()
 }
 
+// blocked is installed as simhook.BlockedHook: the running task cannot take a
+// lock (its holder is parked).  The baton goes to another task.
+//
+//go:norace
+func blocked() {
+	var others [maxTasks]int
+	k := 0
+	for i := 0; i < len(done)-1; i++ {
+		if !done[i] && i != cur {
+			others[k] = i
+			k++
+		}
+	}
+	if k == 0 {
+		panic("sched: the only runnable task waits for a lock that nobody can release (deadlock in the code under test)")
+	}
+	blockedYields++
+	switchTo(others[tp.Draw(k)], "blocked-on-lock")
+}
+
 // onStep is installed as simhook.OnStep: a function-entry / loop yield.
 //
 //go:norace
@@ -179,6 +203,7 @@ func EndOp(task int) {
 
 // Stats describes one concurrent phase.
 type Stats struct {
+	BlockedYields int
 	Switches   int
 	Overlaps   map[[2]int]int
 	TraceHash  uint64
@@ -191,6 +216,9 @@ type Stats struct {
 func Run(t *tape.Tape, n int, maxSwitches int, body func(task int)) Stats {
 	t.Reserve(1 << 16) // the scheduler must not grow the tape from a task
 	setup(t, n, maxSwitches)
+	stop := make(chan struct{})
+	defer close(stop)
+	go monitor(stop)
 	var wg sync.WaitGroup // visible synchronisation for "everything finished"
 	for i := 0; i < n; i++ {
 		wg.Add(1)
@@ -202,6 +230,37 @@ func Run(t *tape.Tape, n int, maxSwitches int, body func(task int)) Stats {
 	drive(n)
 	wg.Wait()
 	return teardown()
+}
+
+// ExitBlocked is the exit status of a worker whose tasks block on each other
+// through a synchronisation primitive the scheduler does not model (a
+// channel, sync.Cond, sync.WaitGroup ...): the running task waits for a parked
+// one, nothing can proceed.  This is a limitation of the harness, not a
+// violation; the supervisor counts the case as inconclusive.
+const ExitBlocked = 77
+
+//go:norace
+func progress() uint64 { return simhook.Steps + uint64(switches)<<40 }
+
+func monitor(stop chan struct{}) {
+	last := progress()
+	idle := 0
+	for {
+		select {
+		case <-stop:
+			return
+		case <-time.After(100 * time.Millisecond):
+		}
+		if p := progress(); p != last {
+			last, idle = p, 0
+			continue
+		}
+		idle++
+		if idle >= 50 { // 5 s without a single step or switch
+			os.Stderr.WriteString("SIM-BLOCKED: the running task made no progress for 5 s while other tasks are parked: it waits for a parked task through a primitive the scheduler does not model\n")
+			os.Exit(ExitBlocked)
+		}
+	}
 }
 
 //go:norace
@@ -224,6 +283,7 @@ func setup(t *tape.Tape, n int, maxSwitches int) {
 	overlap = [MaxOps][MaxOps]int{}
 	traceLen = 0
 	switches = 0
+	blockedYields = 0
 	maxSw = maxSwitches
 	cur = n // the driver holds the baton
 }
@@ -251,6 +311,7 @@ func finish(i int) {
 func drive(n int) {
 	simhook.Steps = 0
 	simhook.OnStep = onStep
+	simhook.BlockedHook = blocked
 	simhook.Next = nextGap()
 	first := pickNext()
 	cur = first
@@ -258,11 +319,12 @@ func drive(n int) {
 	rawRead(pipes[n].r) // until the last task hands the baton back
 	simhook.Next = ^uint64(0)
 	simhook.OnStep = nil
+	simhook.BlockedHook = nil
 }
 
 //go:norace
 func teardown() Stats {
-	st := Stats{Switches: switches, Overlaps: map[[2]int]int{}}
+	st := Stats{Switches: switches, Overlaps: map[[2]int]int{}, BlockedYields: blockedYields}
 	for a := range overlap {
 		for b := range overlap[a] {
 			if overlap[a][b] > 0 {
